@@ -986,6 +986,9 @@ func (ex *Exec) applyContract(st *State, fc *FuncContract, pc *preparedCall, k f
 	preEnv := ex.calleeEnv(pre, fc, fn, pc.recv, pc.args)
 	ex.havocModifies(st, fc, pc)
 	ex.havocCallbackEffects(st, fc, pc)
+	if !fc.Pure {
+		ex.advanceAlloc(st)
+	}
 	var results []Val
 	if fc.Pure {
 		results = ex.pureCall(st, fc, fn, pc.recv, pc.args)
@@ -1084,7 +1087,17 @@ func (ex *Exec) havocModifies(st *State, fc *FuncContract, pc *preparedCall) {
 				if pn == name && i < len(pc.call.Args) {
 					found = true
 					fresh := ex.freshWf(st, name, sig.Params().At(i).Type())
+					var lk *aliasLink
+					var lobj types.Object
+					if id, ok := unparen(pc.call.Args[i]).(*ast.Ident); ok {
+						lobj = ex.info.Uses[id]
+						lk = st.aliasLinks[lobj]
+					}
 					ex.assignTo(st, pc.call.Args[i], fresh, func(*State) {})
+					if lk != nil {
+						// the callee mutated the map object the variable shares with base[key]
+						ex.writeBackLink(st, lobj, lk)
+					}
 					pc.args[i] = fresh
 				}
 			}
